@@ -48,6 +48,11 @@ const (
 	rttUnit = 20 * time.Millisecond
 )
 
+// rttCode: the round-trip time a driver reports is its own business (the engine keeps the EARLIEST accepted reply, not
+// the fastest): positions are encoded pairwise swapped (1->2, 2->1, 3->4, ...), so that a later delivery carries a
+// smaller round-trip time than the one before it as often as a larger one. The code is its own inverse.
+func rttCode(pos int) int { return ((pos - 1) ^ 1) + 1 }
+
 type driver struct {
 	seq        []Delivery
 	pos        int
@@ -76,7 +81,7 @@ func (d *driver) ReceiveProbe(to time.Duration) (*common.ProbeResponse, error) {
 		if x.Dest && d.sentAtDest < 0 {
 			d.sentAtDest = len(d.sent)
 		}
-		return &common.ProbeResponse{TTL: x.TTL, IP: addrs[x.Resp], RTT: time.Duration(len(d.accepted)) * rttUnit, IsDest: x.Dest}, nil
+		return &common.ProbeResponse{TTL: x.TTL, IP: addrs[x.Resp], RTT: time.Duration(rttCode(len(d.accepted))) * rttUnit, IsDest: x.Dest}, nil
 	}
 	vtime.Sleep(to)
 	return nil, common.ErrPacketDidNotMatchTraceroute
@@ -168,7 +173,7 @@ func check(sc *Scenario, x *vsched.Exec, o *obs) (string, string) {
 				return k, fmt.Sprintf("ttl %d: accepted=%v want %+v got %s", w.TTL, d.accepted, *w, canon(o.res))
 			}
 			// RTT identifies which accepted delivery was kept
-			idx := int(g.RTT / rttUnit)
+			idx := rttCode(int(g.RTT / rttUnit))
 			if idx < 1 || idx > len(d.accepted) || &d.accepted[idx-1] != w {
 				return "merge/not-first-reply", fmt.Sprintf("ttl %d: kept delivery #%d, reference keeps another; accepted=%v", w.TTL, idx, d.accepted)
 			}
